@@ -75,6 +75,75 @@ VerdictJsat ==
           \A s \in 1..4 : LET d == <<Sub(Ev.Q[s][1], Ev.P[s][1]), Sub(Ev.Q[s][2], Ev.P[s][2]), Sub(Ev.Q[s][3], Ev.P[s][3])>>
                           IN Le(Norm2(<<MulInt(d[1], 100), MulInt(d[2], 100), MulInt(d[3], 100)>>), FromInt(4)))
 
+\* Galilean satellite phenomena.  M = check_phenomena(e): per satellite the perspective distance from Jupiter's centre seen
+\* from the Earth (occultation column) and from the Sun (eclipse column), positive when the satellite is BEHIND the planet;
+\* occ / ecl = the single-satellite calls; one = check_phenomena(e, False, s); isp = is_phenomena(e);
+\* CE CS = rectangular coordinates seen from the Earth / the Sun (Jupiter radii; Y is stretched by the flattening 1.071374)
+Flat == Add(One, Dec(71374, 6))
+PerspOK(d, c) ==
+  LET y == Mul(c[2], Flat)
+      r2 == Add(Mul(c[1], c[1]), Mul(y, y))
+  IN /\ Le(Abs(Sub(Mul(d, d), r2)), Add(Mul(Dec(1, 9), r2), Dec(1, 12)))
+     /\ (Sgn(c[3]) = 1 => Sgn(d) >= 0) /\ (Sgn(c[3]) = -1 => Sgn(d) <= 0)
+Hidden(d) == Ge(d, Zero) /\ Le(d, One)          \* behind the planet and inside its (stretched) disk
+VerdictJphen ==
+  IF Ev.oc # "ok" THEN {"JPHEN_TOTAL"} ELSE
+     Viol("JPHEN_MATRIX_IS_ITS_PIECES", \A s \in 1..4 : Ev.M[s][1] = Ev.occ[s] /\ Ev.M[s][2] = Ev.ecl[s] /\ IsZero(Ev.M[s][3]))
+\cup Viol("JPHEN_SINGLE_SATELLITE_IS_ITS_ROW", \A s \in 1..4 : Ev.one[s][1] = Ev.M[s][1] /\ Ev.one[s][2] = Ev.M[s][2])
+\cup Viol("JPHEN_PERSPECTIVE_DISTANCE", \A s \in 1..4 : PerspOK(Ev.M[s][1], Ev.CE[s]) /\ PerspOK(Ev.M[s][2], Ev.CS[s]))
+\cup Viol("JPHEN_YES_NO_MATRIX", \A s \in 1..4 : /\ ((Ev.isp[s][1] = 1) <=> Hidden(Ev.M[s][1]))
+                                                   /\ ((Ev.isp[s][2] = 1) <=> Hidden(Ev.M[s][2]))
+                                                   /\ Ev.isp[s][3] = 0)
+
+\* ---- helpers no other driver reaches -------------------------------------------------------------------------
+PiG == Add(FromInt(3), Add(Dec(1415926535, 10), Add(Dec(8979, 14), Dec(32, 16))))
+\* machine_accuracy(): x = 2^(j+1) is the first power of two with x + 1 = x, i.e. 2^53 for IEEE doubles: 52 stored mantissa
+\* bits, and the 15 decimal digits they carry
+VerdictMacc == Viol("MACHINE_ACCURACY", Ev.jint = 1 /\ Ev.j = 52 /\ Ev.dec = 15)
+\* reduce_dms(D, M, S): the same angle (sign: negative if any field is), fields in range, integral degrees and minutes
+VerdictRdms ==
+  IF Ev.oc # "ok" THEN {"REDUCE_DMS_TOTAL"} ELSE
+  LET inp == Add(Ev.D, Add(DivInt(Ev.M, 60), DivInt(Ev.S, 3600)))
+      out == Add(Ev.d, Add(DivInt(Ev.m, 60), DivInt(Ev.s, 3600)))
+  IN Viol("REDUCE_DMS_FIELDS", /\ Ge(Ev.d, Zero) /\ Lt(Ev.d, FromInt(360)) /\ ~HasFrac(Ev.d)
+                               /\ Ge(Ev.m, Zero) /\ Lt(Ev.m, FromInt(60)) /\ ~HasFrac(Ev.m)
+                               /\ Ge(Ev.s, Zero) /\ Lt(Ev.s, FromInt(60)))
+  \cup Viol("REDUCE_DMS_SAME_ANGLE", WithinMod(out, inp, 360, Dec(1, 9)))
+  \cup Viol("REDUCE_DMS_SIGN", Ev.sg = (IF Ev.neg = 1 THEN -1 ELSE 1))
+\* set_radians(r): r * 180 / pi reduced; set_ra(h): 15 h reduced; both on an object that held something else before
+VerdictSetAng ==
+     \* rd = r in degrees is a witness: rd * pi = 180 r is verified here
+     Viol("SET_RADIANS", /\ Le(Abs(Sub(Mul(Ev.rd, PiG), MulInt(Ev.r, 180))), Dec(1, 9))
+                         /\ WithinMod(Ev.v1, Ev.rd, 360, Dec(1, 9)) /\ Lt(Abs(Ev.v1), FromInt(360)))
+\cup Viol("SET_RA", WithinMod(Ev.v2, MulInt(Ev.h, 15), 360, Dec(1, 9)) /\ Lt(Abs(Ev.v2), FromInt(360)))
+\* ecliptic_equator at latitude 0: q = 180 - atan(cos(lon) tan(eps)), hence within eps of 180 and on the side given by cos(lon)
+VerdictEclEq ==
+  IF Ev.oc # "ok" THEN {"ECLIPTIC_EQUATOR_TOTAL"} ELSE
+  LET dq == Sub(Mod(Ev.q, 360), FromInt(180))
+  IN Viol("ECLIPTIC_EQUATOR_WITHIN_OBLIQUITY", Le(Abs(dq), Add(Ev.eps, Dec(1, 9))))
+  \cup Viol("ECLIPTIC_EQUATOR_SIDE", Lt(Abs(Ev.cl), Dec(1, 6)) \/ Sgn(dq) = 0 - Sgn(Ev.cl))
+\* straight_line: six orders of the same three bodies (the function sorts them itself); bodies ON one great circle
+\* (bend = 0) deviate by nothing; a body lifted by `bend` degrees off the great circle of the other two is that far from
+\* their line, provided it is the one the function takes as central (the middle one in right ascension: mid = 1)
+VerdictSline ==
+     Viol("STRAIGHT_LINE_TOTAL", \A p \in 1..6 : Ev.oc[p] = "ok")
+\cup (IF \E p \in 1..6 : Ev.oc[p] # "ok" THEN {} ELSE
+      Viol("STRAIGHT_LINE_ORDER_FREE", \A p \in 2..6 : Ev.psi[p] = Ev.psi[1] /\ Ev.om[p] = Ev.om[1])
+ \cup Viol("STRAIGHT_LINE_ON_GREAT_CIRCLE", ~IsZero(Ev.bend) \/ Le(Abs(Ev.om[1]), Dec(1, 5)))
+ \cup Viol("STRAIGHT_LINE_DISTANCE", IsZero(Ev.bend) \/ Ev.mid = 0 \/ Le(Abs(Sub(Abs(Ev.om[1]), Ev.bend)), Dec(1, 5))))
+\* position angle of the Moon's axis: within 25 deg of north, changing by less than 7.5 deg per day (24.6 deg amplitude over
+\* a 27.3-day period gives 5.7; the observed maximum is 6.8)
+VerdictMpaa ==
+     Viol("MOON_AXIS_RANGE", Le(DistMod(Ev.p0, 360), FromInt(25)))
+\cup Viol("MOON_AXIS_CONTINUOUS", Le(DistMod(Sub(Ev.p1, Ev.p0), 360), Dec(75, 1)))
+\* Earth-Jupiter distance (AU) and its light time (days)
+VerdictJdelta ==
+     Viol("JUPITER_DISTANCE_RANGE", Ge(Ev.delta, Dec(39, 1)) /\ Le(Ev.delta, Dec(65, 1)))
+\cup Viol("JUPITER_LIGHT_TIME", Le(Abs(Sub(Ev.tau, Mul(Dec(57755183, 10), Ev.delta))), Dec(1, 8)))
+\* eval(repr(x)) rebuilds an equal object (Angle, Epoch, Interpolation, CurveFitting)
+VerdictReprs == Viol("REPR_ROUND_TRIP_ANGLE", Ev.a = 1) \cup Viol("REPR_ROUND_TRIP_EPOCH", Ev.e = 1)
+           \cup Viol("REPR_ROUND_TRIP_INTERPOLATION", Ev.i = 1) \cup Viol("REPR_ROUND_TRIP_CURVEFITTING", Ev.c = 1)
+
 \* Sun's disk: P position angle of the axis, B0 L0 heliographic latitude / longitude of the centre; the same one day later;
 \* lc = L0 at the beginning of a Carrington rotation (which is DEFINED by L0 = 0)
 VerdictSunPhys ==
@@ -184,7 +253,10 @@ Verdict == CASE Ev.k = "stat" -> VerdictStat [] Ev.k = "cal" -> VerdictCal [] Ev
              [] Ev.k = "sunphys" -> VerdictSunPhys [] Ev.k = "ring" -> VerdictRing [] Ev.k = "libr" -> VerdictLibr
              [] Ev.k = "refr" -> VerdictRefr [] Ev.k = "carr" -> VerdictCarr [] Ev.k = "epk" -> VerdictEpk
              [] Ev.k = "angv" -> VerdictAngv [] Ev.k = "mag" -> VerdictMag [] Ev.k = "moonk" -> VerdictMoonk
-             [] Ev.k = "jsat" -> VerdictJsat [] OTHER -> {"UNKNOWN_KIND"}
+             [] Ev.k = "jsat" -> VerdictJsat [] Ev.k = "jphen" -> VerdictJphen
+             [] Ev.k = "macc" -> VerdictMacc [] Ev.k = "rdms" -> VerdictRdms [] Ev.k = "setang" -> VerdictSetAng
+             [] Ev.k = "ecleq" -> VerdictEclEq [] Ev.k = "sline" -> VerdictSline [] Ev.k = "mpaa" -> VerdictMpaa
+             [] Ev.k = "jdelta" -> VerdictJdelta [] Ev.k = "reprs" -> VerdictReprs [] OTHER -> {"UNKNOWN_KIND"}
 Init == TraceInit(0)
 Next == StepWith(Verdict, 0)
 Spec == Init /\ [][Next]_<<l, st>>
